@@ -209,7 +209,10 @@ def _run(ctx, d):
 
     # ---------------------------------------------------------------- (5) seeds
     def run_src(src, timeout=30):
-        return ctx.garden(["run", "-c", src], timeout=timeout, cwd=d, input="", env={"RUST_BACKTRACE": "0"})
+        r = ctx.garden(["run", "-c", src], timeout=timeout, cwd=d, input="", env={"RUST_BACKTRACE": "0"})
+        if r[0] == -9999:     # loaded machine: once more with a long timeout before calling it non-termination
+            r = ctx.garden(["run", "-c", src], timeout=300, cwd=d, input="", env={"RUST_BACKTRACE": "0"})
+        return r
     for (key, src), (rc, so, se) in zip(SEEDS, common.pmap(lambda ks: run_src(ks[1]), SEEDS)):
         ctx.case(("seed", src), True)
         if common.crashed(rc):
@@ -239,6 +242,8 @@ def _run(ctx, d):
         if common.crashed(rc):
             ctx.fail(crash_key("C02/crash/operator", se), "operator crashed the interpreter: %s" % (se or "").strip()[:300],
                      src=src[:400])
+        elif rc == -9999:
+            ctx.fail("C02/timeout/operator", "operator program did not finish within 300 s", src=src[:400])
         elif expect and expect not in so:
             ctx.fail("C02/operator-batch-raised", "a non-raising operator raised: %s" % (so + se)[-300:], src=src[:400])
     rcalls = BS.raising_operator_calls()
